@@ -129,6 +129,7 @@ def _run_variant(args):
             verdict = "PASS" if new else "FAIL"
             viol = [l for l in out.splitlines() if "[VIOLATION" in l and any(k.split(":")[2] in l for k in new)]
             detail = (viol[0].strip()[:200] if viol else (new[0] if new else "no new violation"))
+            detail = detail.replace("[VIOLATION]", "fired:")
         else:
             verdict = "PASS" if not new else "FAIL"
             detail = "; ".join(new)[:300]
